@@ -105,6 +105,27 @@ fn run_op(tx: &mut Transaction, op: &Value) -> Value {
             Err(e) => json!({ "err": e.to_string() }),
         },
         "to_bytes" => res_bytes(tx.to_bytes()),
+        "parse_fields" => {
+            // serialise, parse back, and report every field of the parsed transaction in the request's own JSON shape
+            match tx.to_bytes().and_then(|b| Transaction::from_bytes(&b)) {
+                Ok(t) => {
+                    let ins: Vec<Value> = (0..t.get_ninputs())
+                        .map(|i| {
+                            let x = t.get_input(i).unwrap();
+                            json!({"prev_tx_id": hex::encode(x.get_prev_tx_id(None)), "vout": x.get_vout(), "script": x.get_unlocking_script_hex(), "sequence": x.get_sequence()})
+                        })
+                        .collect();
+                    let outs: Vec<Value> = (0..t.get_noutputs())
+                        .map(|i| {
+                            let x = t.get_output(i).unwrap();
+                            json!({"value": x.get_satoshis(), "script": x.get_script_pub_key_hex()})
+                        })
+                        .collect();
+                    json!({"ok": {"version": t.get_version(), "locktime": t.get_n_locktime(), "inputs": ins, "outputs": outs}})
+                }
+                Err(e) => json!({ "err": e.to_string() }),
+            }
+        }
         "get_id" => res_bytes(tx.get_id_bytes()),
         "get_size" => match tx.get_size() {
             Ok(n) => json!({ "ok": n }),
